@@ -124,7 +124,7 @@ type aEnv struct {
 	exQ      [][][]*LockQueue
 	clients  []*MemWaiterServerProtocol
 	reqs     []*aReq
-	hist     []string
+	hist     []aHistRec
 	mon      *aMonitor
 	sending  *aReq
 }
@@ -135,23 +135,10 @@ func aNewEnv(c *aCase) (*aEnv, error) {
 		return nil, err
 	}
 	e := &aEnv{c: c, inst: inst, now: aEpoch}
-	for db := 0; db < 2; db++ {
-		d := inst.slock.GetOrNewDB(uint8(db))
-		d.currentTime, d.checkTimeoutTime, d.checkExpriedTime = e.now, e.now, e.now
-		e.dbs = append(e.dbs, d)
-		tq := make([][]*LockQueue, d.managerMaxGlocks)
-		xq := make([][]*LockQueue, d.managerMaxGlocks)
-		for i := range tq {
-			tq[i] = make([]*LockQueue, 5)
-			xq[i] = make([]*LockQueue, 5)
-			for j := 0; j < 5; j++ {
-				tq[i][j] = NewLockQueue(4, 16, 64)
-				xq[i][j] = NewLockQueue(4, 16, 64)
-			}
-		}
-		e.toQ = append(e.toQ, tq)
-		e.exQ = append(e.exQ, xq)
-	}
+	e.dbs = make([]*LockDB, 2)
+	e.toQ = make([][][]*LockQueue, 2)
+	e.exQ = make([][][]*LockQueue, 2)
+	e.ensureDB(0)
 	for i := 0; i < c.Clients; i++ {
 		p := NewMemWaiterServerProtocol(inst.slock)
 		idx := i
@@ -165,6 +152,27 @@ func aNewEnv(c *aCase) (*aEnv, error) {
 	return e, nil
 }
 
+// ensureDB creates database db (as the first LOCK addressed to it would) and puts it on the virtual clock.
+func (e *aEnv) ensureDB(db int) {
+	if e.dbs[db] != nil {
+		return
+	}
+	d := e.inst.slock.GetOrNewDB(uint8(db))
+	d.currentTime, d.checkTimeoutTime, d.checkExpriedTime = e.now, e.now, e.now
+	e.dbs[db] = d
+	tq := make([][]*LockQueue, d.managerMaxGlocks)
+	xq := make([][]*LockQueue, d.managerMaxGlocks)
+	for i := range tq {
+		tq[i] = make([]*LockQueue, 5)
+		xq[i] = make([]*LockQueue, 5)
+		for j := 0; j < 5; j++ {
+			tq[i][j] = NewLockQueue(4, 16, 64)
+			xq[i][j] = NewLockQueue(4, 16, 64)
+		}
+	}
+	e.toQ[db], e.exQ[db] = tq, xq
+}
+
 func (e *aEnv) close() {
 	for _, p := range e.clients {
 		_ = p.Close()
@@ -172,8 +180,15 @@ func (e *aEnv) close() {
 	e.inst.vClose(false, true)
 }
 
+type aHistRec struct {
+	t int64
+	f string
+	a []interface{}
+}
+
+// logf records a history line; it is only formatted when a failure is reported.
 func (e *aEnv) logf(format string, a ...interface{}) {
-	e.hist = append(e.hist, fmt.Sprintf("[t+%d] ", e.now-aEpoch)+fmt.Sprintf(format, a...))
+	e.hist = append(e.hist, aHistRec{e.now - aEpoch, format, a})
 }
 
 func (e *aEnv) history() string {
@@ -181,7 +196,13 @@ func (e *aEnv) history() string {
 	if len(h) > 400 {
 		h = h[len(h)-400:]
 	}
-	return strings.Join(h, "\n")
+	var sb strings.Builder
+	for _, r := range h {
+		fmt.Fprintf(&sb, "[t+%d] ", r.t)
+		fmt.Fprintf(&sb, r.f, r.a...)
+		sb.WriteByte('\n')
+	}
+	return sb.String()
 }
 
 func (e *aEnv) onReply(client int, cmd *protocol.LockCommand, result uint8, lcount uint16, lrcount uint8, data []byte) {
@@ -197,10 +218,14 @@ func (e *aEnv) onReply(client int, cmd *protocol.LockCommand, result uint8, lcou
 		return
 	}
 	r := e.reqs[idx]
-	e.logf("  <- c%d req#%d %s lcount=%d lrcount=%d lockid=%d data=%x", client, idx, aResultName(result), lcount, lrcount, int(cmd.LockId[0])|int(cmd.LockId[1])<<8, d)
+	e.logf("  <- c%d req#%d %v lcount=%d lrcount=%d lockid=%d data=%x", client, idx, aResName(result), lcount, lrcount, int(cmd.LockId[0])|int(cmd.LockId[1])<<8, d)
 	r.Replies = append(r.Replies, rp)
 	e.mon.onReply(r, &rp)
 }
+
+type aResName uint8
+
+func (r aResName) String() string { return aResultName(uint8(r)) }
 
 func aResultName(r uint8) string {
 	names := []string{"SUCCED", "UNKNOWN_MAGIC", "UNKNOWN_VERSION", "UNKNOWN_DB", "UNKNOWN_COMMAND", "LOCKED_ERROR", "UNLOCK_ERROR", "UNOWN_ERROR", "TIMEOUT", "EXPRIED", "STATE_ERROR", "ERROR", "LOCK_ACK_WAITING"}
@@ -219,6 +244,9 @@ func (e *aEnv) apply(op aOp) {
 	case "collect":
 		// the pool collectors run every 300 s of wall time (Server.handleFreeCollect); emulate that cadence
 		for _, d := range e.dbs {
+			if d == nil {
+				continue
+			}
 			d.freeCollector.lastCollectTime = time.Now().Unix() - 300
 			_ = d.FreeCollect()
 		}
@@ -252,8 +280,11 @@ func (e *aEnv) send(op aOp) {
 		r.Op.F |= 0x20
 	}
 	e.reqs = append(e.reqs, r)
-	e.logf("#%d %s", r.Idx, op.String())
+	e.logf("#%d %v", r.Idx, op)
 	e.mon.onRequest(r)
+	if op.K == "lock" {
+		e.ensureDB(op.Db)
+	}
 	r.InFlight = true
 	_ = p.ProcessLockCommand(cmd)
 	r.InFlight = false
@@ -271,6 +302,9 @@ func (e *aEnv) tick(op aOp) {
 		e.now += int64(jump)
 		nlog := len(e.hist)
 		for di, d := range e.dbs {
+			if d == nil {
+				continue
+			}
 			d.currentTime = e.now
 			sweepT := func() {
 				c := d.checkTimeoutTime
@@ -301,15 +335,15 @@ func (e *aEnv) tick(op aOp) {
 		e.mon.afterClock()
 		if len(e.hist) > nlog {
 			// something happened during this second: keep a marker in front of it
-			e.hist = append(e.hist, "")
+			e.hist = append(e.hist, aHistRec{})
 			copy(e.hist[nlog+1:], e.hist[nlog:])
-			e.hist[nlog] = fmt.Sprintf("[t+%d] clock", e.now-aEpoch)
+			e.hist[nlog] = aHistRec{e.now - aEpoch, "clock", nil}
 		}
 		if e.mon.stop {
 			return
 		}
 	}
-	e.logf("tick done: %s", op.String())
+	e.logf("tick done: %v", op)
 }
 
 // ---------------------------------------------------------------------------------------------
@@ -431,11 +465,14 @@ func aScanFreed(d *LockDB) string {
 		}
 		return ""
 	}
-	scanQ := func(where string, q *LockQueue) string {
+	scanQ := func(where string, a, b int, q *LockQueue) string {
+		if q.Len() == 0 {
+			return ""
+		}
 		for i := range q.IterNodes() {
 			for _, l := range q.IterNodeQueues(int32(i)) {
-				if s := check(where, l); s != "" {
-					return s
+				if l != nil && l.manager == nil {
+					return fmt.Sprintf("freed Lock object reachable from %s %d/%d", where, a, b)
 				}
 			}
 		}
@@ -443,26 +480,26 @@ func aScanFreed(d *LockDB) string {
 	}
 	for s := range d.timeoutLocks {
 		for sh := range d.timeoutLocks[s] {
-			if r := scanQ(fmt.Sprintf("timeout wheel slot %d shard %d", s, sh), d.timeoutLocks[s][sh]); r != "" {
+			if r := scanQ("timeout wheel slot/shard", s, sh, d.timeoutLocks[s][sh]); r != "" {
 				return r
 			}
 		}
 	}
 	for s := range d.expriedLocks {
 		for sh := range d.expriedLocks[s] {
-			if r := scanQ(fmt.Sprintf("expiry wheel slot %d shard %d", s, sh), d.expriedLocks[s][sh]); r != "" {
+			if r := scanQ("expiry wheel slot/shard", s, sh, d.expriedLocks[s][sh]); r != "" {
 				return r
 			}
 		}
 	}
 	for sh := range d.longTimeoutLocks {
 		for t, q := range d.longTimeoutLocks[sh] {
-			if r := scanQ(fmt.Sprintf("long timeout table %d", t), &q.locks); r != "" {
+			if r := scanQ("long timeout table", int(t-aEpoch), sh, &q.locks); r != "" {
 				return r
 			}
 		}
 		for t, q := range d.longExpriedLocks[sh] {
-			if r := scanQ(fmt.Sprintf("long expiry table %d", t), &q.locks); r != "" {
+			if r := scanQ("long expiry table", int(t-aEpoch), sh, &q.locks); r != "" {
 				return r
 			}
 		}
@@ -507,4 +544,21 @@ func aScanFreed(d *LockDB) string {
 		}
 	}
 	return ""
+}
+
+// aScanRecycledValues counts key managers sitting in the free ring that still carry a value.
+func aScanRecycledValues(d *LockDB) int {
+	n := 0
+	head, tail := d.freeLockManagerHead, d.freeLockManagerTail
+	for i := tail; i != head; {
+		i++
+		m := d.freeLockManagers[i%d.maxFreeLockManagerCount]
+		if m != nil && m.currentData != nil {
+			n++
+		}
+		if i-tail > 100000 {
+			break
+		}
+	}
+	return n
 }
